@@ -256,7 +256,9 @@ def _calibrate(rng, case, widen):
             m['OSNR'] = round(nets_g.round2(metric) - case['margin'] + d, 2)
             if rng.random() < 0.05:
                 m['OSNR'] = round(m['OSNR'] + 0.005, 3)    # off the 0.01 grid
+        case['calibrated'] = True
     except Exception:
+        case['calibrated'] = False      # counted in the evidence (path_calibration_fallback)
         for m in case['modes']:
             m['OSNR'] = round(rng.uniform(10, 30), 2)
 
@@ -751,9 +753,12 @@ def run_path(case, drv):
             'baud_above_min_spacing': 'EquipmentConfigError'}.get(mal)
     if mal == 'spacing_below_min' and case['mode'] is not None:
         want = 'ServiceError'
-    if impl_err != want:
-        res.fail(f'request check: request with {mal or "valid"} parameters gave {impl_err}, must give {want}')
-    res.stats.update({'path': 1, f'path_request_{impl_err or "accepted"}': 1})
+    # (the error KIND is correspondence only; the property is about accepted vs rejected)
+    if (impl_err is None) != (want is None):
+        res.fail(f'request check: request with {mal or "valid"} parameters was {"accepted" if impl_err is None else "rejected (" + impl_err + ")"}, '
+                 f'must be {"accepted" if want is None else "rejected"}')
+    res.stats.update({'path': 1, f'path_request_{impl_err or "accepted"}': 1,
+                      'path_calibration_fallback': int(case.get('calibrated') is False)})
     if impl_err or exp_err:
         res.nontrivial = True
         return res
@@ -840,8 +845,7 @@ def run_path(case, drv):
                 res.fail(f'fixed-mode verdict: reported {reason}, worst channel forward {ev["min"]:.4f} dB'
                          + (f' reverse {rev_ev["min"]:.4f} dB' if case['bidir'] else '')
                          + f' against OSNR+margin {thr:.4f} dB requires {exp_reason}')
-        if rq.tsp_mode != m['format']:
-            res.fail(f'fixed-mode verdict: request mode changed from {m["format"]} to {rq.tsp_mode}')
+        res.cmp_exact('compute_path_with_disjunction.fixed.tsp_mode', rq.tsp_mode, m['format'])
         res.nontrivial = True
         met = [g - q for g, q in zip(ev['snr01'], ev['pen'])]
         res.stats.update({f'fixed_{reason or "served"}': 1, 'fixed_penalty_inf': int(math.isinf(ev['min'])),
@@ -926,75 +930,79 @@ def run_path(case, drv):
 
     # ---- monitor: every fitting mode judged on ITS OWN propagation -------------------------------------------------------------
     own = {}
-    ill = False
     for m in fitting:
         p = props[(m['baud_rate'], m['offset_mdb'])]
         ev = _indep_eval(p, _adddrop(case, path0, p), m['tx_osnr'], _tables(ctx, m))
         v, i_ = _judge(ev['min'], m['OSNR'] + thr_margin)
-        own[m['format']] = (v, ev)
-        ill = ill or i_
+        own[m['format']] = (None if i_ else v, ev)       # None = sits on a tie: not judged by the property
+    key = lambda m: (m['baud_rate'], m['bit_rate'])      # noqa: E731
     failures = []
+    skipped_for_tie = False
     if not fitting:
         if reason != 'NO_FEASIBLE_BAUDRATE_WITH_SPACING':
             failures.append(f'mode selection: no mode fits the spacing but the request is reported as {reason}')
-    elif ill:
-        res.ill += 1
     else:
-        feas = [m for m in fitting if own[m['format']][0]]
-        if not feas:
+        feas = [m for m in fitting if own[m['format']][0] is True]
+        unknown = [m for m in fitting if own[m['format']][0] is None]
+        best = max(key(m) for m in feas) if feas else None
+        # a near-tie mode matters only when it ranks at or above the expected winner (or when nothing else is feasible)
+        relevant = [m for m in unknown if best is None or key(m) >= best]
+        if relevant:
+            skipped_for_tie = True
+        elif not feas:
             if reason != 'NO_FEASIBLE_MODE':
                 failures.append(f'mode selection: no fitting mode is feasible on its own propagation but the request is '
                                 f'reported as {reason or "served with " + str(rq.tsp_mode)}')
         else:
-            best = max((m['baud_rate'], m['bit_rate']) for m in feas)
             if reason in ('NO_FEASIBLE_MODE', 'NO_FEASIBLE_BAUDRATE_WITH_SPACING', 'NO_COMPUTED_SNR'):
                 failures.append(f'mode selection: blocked as {reason} although mode(s) {[m["format"] for m in feas]} '
                                 f'are feasible and fit the spacing')
             elif chosen is None or chosen not in fitting:
                 failures.append(f'mode selection: chosen mode {rq.tsp_mode} does not fit the spacing')
-            elif not own[chosen['format']][0]:
+            elif own[chosen['format']][0] is False:
                 failures.append(f'mode selection: chosen mode {chosen["format"]} is not feasible on its own propagation '
                                 f'(worst channel {own[chosen["format"]][1]["min"]:.4f} dB, needs > '
                                 f'{chosen["OSNR"] + thr_margin:.4f} dB)')
-            elif (chosen['baud_rate'], chosen['bit_rate']) != best:
+            elif own[chosen['format']][0] is None:
+                skipped_for_tie = True          # a lower-ranked near-tie mode was chosen: its feasibility is not judged
+            elif key(chosen) != best:
                 failures.append(f'mode selection: chosen {chosen["format"]} (baud {chosen["baud_rate"]:.4g}, bit rate '
                                 f'{chosen["bit_rate"]:.4g}) but a feasible fitting mode has (baud, bit rate) = {best}')
             else:
                 vr_ok = True
                 if case['bidir']:
                     vr, illr = _judge(rev_ev['min'], chosen['OSNR'] + thr_margin)
-                    if illr:
-                        vr_ok = None
-                    else:
-                        vr_ok = vr
+                    vr_ok = None if illr else vr
                 if vr_ok is not None:
                     exp_reason = None if vr_ok else 'MODE_NOT_FEASIBLE'
                     if reason != exp_reason:
                         failures.append(f'mode selection: mode {chosen["format"]} selected, reverse direction '
                                         f'{"passes" if vr_ok else "fails"}, but the request is reported as {reason}')
-    # the figures reported for the retained mode must be those of its own propagation
+    if skipped_for_tie:
+        res.ill += 1
+    # the figures reported for a SERVED request must be those of the selected mode's own propagation (what is left on the
+    # receiver after a request blocked by the selection is not stated by the property: correspondence only, see `same`)
     if chosen is not None and rx is not None and chosen in fitting:
-        msg = _monitor_figures(None, 'forward', rx, own[chosen['format']][1])
-        if msg:
-            failures.append(msg)
-        if rq.baud_rate != chosen['baud_rate'] or rq.OSNR != chosen['OSNR'] or rq.bit_rate != chosen['bit_rate'] \
-                or rq.tx_osnr != chosen['tx_osnr'] or rq.offset_db != chosen['offset_mdb'] / 1000:
-            failures.append(f'mode selection: request attributes after selection are not those of mode {chosen["format"]}')
-        if case['bidir'] and rev_ev is not None:
-            msg = _monitor_figures(None, 'reverse', rev_prop[0][-1], rev_ev)
+        if reason is None or (case['bidir'] and reason == 'MODE_NOT_FEASIBLE'):
+            msg = _monitor_figures(None, 'forward', rx, own[chosen['format']][1])
             if msg:
                 failures.append(msg)
-    if failures:
-        if near and not same_rep:
-            res.ill += 1      # a judgement sits on a rounding tie: the outcome is not judged
-        else:
-            for f in failures:
-                res.fail(('F9-like ' if old_loop else '') + f, cls='unlisted')
+            if case['bidir'] and rev_ev is not None:
+                msg = _monitor_figures(None, 'reverse', rev_prop[0][-1], rev_ev)
+                if msg:
+                    failures.append(msg)
+        # bookkeeping of the request object after selection: correspondence (the model's selected mode carries these values)
+        res.cmp_exact('compute_path_with_disjunction.request_attributes_after_selection',
+                      [rq.baud_rate, rq.OSNR, rq.bit_rate, rq.tx_osnr, rq.offset_db],
+                      [chosen['baud_rate'], chosen['OSNR'], chosen['bit_rate'], chosen['tx_osnr'], chosen['offset_mdb'] / 1000])
+    for f in failures:
+        res.fail(('F9-like ' if old_loop else '') + f, cls='unlisted')
     res.nontrivial = bool(fitting)
     res.stats.update({f'auto_{reason or "served"}': 1, 'auto_modes': len(modes), 'auto_fitting': len(fitting),
                       'auto_pairs': len(pairs), 'auto_same_baud_different_offset': int(mixed),
                       'auto_old_F9_loop_would_differ': int(mixed and (cur['kind'], cur['mode'], cur['prop']) != (rep['kind'], rep['mode'], rep['prop'])),
-                      'auto_feasible_modes': sum(1 for m in fitting if own[m['format']][0])})
+                      'auto_feasible_modes': sum(1 for m in fitting if own[m['format']][0] is True),
+                      'auto_monitor_skipped_for_relevant_tie': int(skipped_for_tie)})
     return res
 
 
@@ -1041,9 +1049,7 @@ def _check_contribs(res, drv, case, calls, dirs, loop):
     res.cmp_exact('propagate.update_snr.arguments', got, expr)
     for (u, l), (path, prop, txs, s_uid, d_uid) in zip(calls[1::2], dirs):
         n_r = sum(1 for r in prop['roadm'])
-        if len(l) != n_r + 1:
-            res.fail(f'contributions: receiver {u} was given {len(l)} noise contributions for {n_r} ROADM crossings and '
-                     f'one transmitter')
+        res.cmp_exact('propagate.update_snr.argument_count', len(l), n_r + 1, receiver=u)
 
 
 def _check_loop_contribs(res, drv, calls, path0, prop, src_uid, dst_uid, modes, explored, n_roadm):
@@ -1073,9 +1079,7 @@ def _check_loop_contribs(res, drv, calls, path0, prop, src_uid, dst_uid, modes, 
         got = [[None if x is None else round(x, 9) for x in l] for l in rc[:len(txs)]]
         res.cmp_exact('propagate_and_optimize_mode.update_snr.arguments', got, model)
     for k, l in enumerate(rc):
-        if len(l) != n_roadm + 1:
-            res.fail(f'contributions: receiver update {k} inside the mode loop was given {len(l)} noise contributions for '
-                     f'{n_roadm} ROADM crossings and one transmitter')
+        if not res.cmp_exact('propagate_and_optimize_mode.update_snr.argument_count', len(l), n_roadm + 1, iteration=k):
             break
 
 
